@@ -228,6 +228,7 @@ struct span {
     [[nodiscard]] constexpr auto first() const -> span<element_type, Count>
     {
         static_assert(Count <= Extent);
+        TETL_PRECONDITION(Count <= size());
         return span<element_type, Count>{data(), static_cast<size_type>(Count)};
     }
 
@@ -245,6 +246,7 @@ struct span {
     [[nodiscard]] constexpr auto last() const -> span<element_type, Count>
     {
         static_assert(Count <= Extent);
+        TETL_PRECONDITION(Count <= size());
         return span<element_type, Count>{data() + (size() - Count), static_cast<size_type>(Count)};
     }
 
@@ -265,6 +267,8 @@ struct span {
     {
         static_assert(Offset <= Extent);
         static_assert(Count == dynamic_extent or Count <= Extent - Offset);
+        TETL_PRECONDITION(Offset <= size());
+        TETL_PRECONDITION(Count == dynamic_extent or Count <= size() - Offset);
 
         auto const ptr = data() + Offset;
         auto const sz  = static_cast<size_type>(Count == dynamic_extent ? size() - Offset : Count);
